@@ -178,11 +178,11 @@ class Or1kArch(Architecture):
         arg_types = [a[0] for a in args]
         arg_locs = self.determine_arg_locations(arg_types)
 
-        arg_regs = {
+        arg_regs = [
             arg_loc
             for arg_loc in arg_locs
             if isinstance(arg_loc, registers.Or1kRegister)
-        }
+        ]
         yield RegisterUseDef(defs=arg_regs)
 
         for arg_loc, arg2 in zip(arg_locs, args):
